@@ -37,6 +37,11 @@ def linemap(pairs):
     return m
 
 
+class Divergent(Exception):
+    """real git did not do what the generator's simple patch model expected (e.g. an unpredicted conflict);
+    the behaviour is dropped, it is neither a pass nor a violation"""
+
+
 class NoteParse:
     """Independent parser of the authorship/3.0.0 note text (written from the published standard)."""
 
@@ -290,8 +295,13 @@ class Run:
         pars = [self.parent_of(c) if c <= nc else 0 for c in range(1, self.maxc + 1)]
         idx = {f: self.world.parse(self.cat(":" + self.world.path(f))) for f in self.files}
         wt = {f: self.read_wt(f) for f in self.files}
+        cur = self.plain(["symbolic-ref", "-q", "--short", "HEAD"], check=False).stdout.decode().strip()
+        side = cur == "side"
+        other = "main" if side else "side"
+        p = self.plain(["rev-parse", "-q", "--verify", "refs/heads/" + other], check=False)
+        tip2 = self.sha2c.get(p.stdout.decode().strip(), 0) if p.returncode == 0 else 0
         return {"wt": wt, "idx": idx, "tree": trees, "par": pars, "ckind": list(self.ckind),
-                "nc": nc, "head": hc}
+                "nc": nc, "head": hc, "tip2": tip2, "side": side}
 
     def _author(self, h):
         if h in self.hash2s:
@@ -552,6 +562,57 @@ class Run:
         self._register_new_commits("commit")
 
 
+    def _other(self):
+        cur = self.plain(["symbolic-ref", "-q", "--short", "HEAD"], check=False).stdout.decode().strip()
+        return "main" if cur == "side" else "side"
+
+    def _expect(self, act):
+        exp = act.get("exp")
+        if not exp:
+            return
+        self._register_new_commits("rewrite")
+        head = self.head_sha()
+        hc = self.sha2c.get(head, 0)
+        if len(self.sha2c) != exp["nc"] or hc == 0 or hc > self.maxc:
+            raise Divergent("%s: expected %d commits, have %d" % (act["a"], exp["nc"], len(self.sha2c)))
+        t = self.tree_of(hc)
+        want = {f: [list(x) for x in exp["t"][f]] for f in self.files}
+        if t != want:
+            raise Divergent("%s: tree of new tip differs from the generator's expectation" % act["a"])
+
+    def act_Branch(self, act):
+        self.wrapped(["branch", self._other()])
+
+    def act_Switch(self, act):
+        self.wrapped(["switch", "-q", self._other()])
+
+    def act_Rebase(self, act):
+        p = self.wrapped(["rebase", "-q", self._other()])
+        if p.returncode != 0:
+            self.plain(["rebase", "--abort"], check=False)
+            raise Divergent("rebase stopped")
+        self._expect(act)
+
+    def act_CherryPick(self, act):
+        p = self.wrapped(["cherry-pick", self.c2sha[act["c"]]])
+        if p.returncode != 0:
+            self.plain(["cherry-pick", "--abort"], check=False)
+            raise Divergent("cherry-pick stopped")
+        self._expect(act)
+
+    def act_Amend(self, act):
+        self.wrapped(["add", "-A"])
+        self.wrapped(["commit", "-q", "--amend", "--no-edit"])
+        self._register_new_commits("amend")
+
+    def act_MergeSquash(self, act):
+        p = self.wrapped(["merge", "-q", "--squash", self._other()])
+        if p.returncode != 0:
+            self.plain(["reset", "--hard"], check=False)
+            raise Divergent("merge --squash stopped")
+        self.wrapped(["commit", "-q", "-m", "squash"])
+        self._expect(act)
+
     def act_ReadOnly(self, act):
         cmd = {"status": ["status", "--short"], "log": ["log", "--oneline", "-n", "3"],
                "diff": ["diff", "--stat"]}[act["cmd"]]
@@ -592,7 +653,11 @@ def execute(gitai, scratch, cfg, behaviour, run_id):
             "steps": [], "notes_detail": {}, "panics": 0}
     try:
         for act in behaviour:
-            run.do(act)
+            try:
+                run.do(act)
+            except Divergent as e:
+                info["divergent"] = str(e)
+                break
             git, obs, detail = run.observe()
             ev = dict(act)
             ev["ev"] = ev.pop("a")
